@@ -17,6 +17,9 @@ CHECKS = {
  "C19": dict(level="model_checking", design="4/C19",
    text="LinkTracker.tla checked exhaustively by TLC (refcount exactness, at most one live send per scope and block, no state when idle, no orphan scope); complete abstract graphs for 2-3 requests x 1-2 links x 1-2 dedup keys replayed through the exported ResponseAssembler stream API (B1) plus seeded random walks through the same TLC graphs: send decision (BlockSizeOnWire and real message content), block index, finish status, memory requested, tracker emptiness (verif accessor).",
    note=TB + "; call order of prepareQuery (dedup key, ignore list, skip count before traversal) assumed", technique="TLC exhaustive + state-graph replay with random walks"),
+ "C08": dict(level="model_checking", design="4/C08",
+   text="Selector.tla: TLC enumerates every selector AST with <= 4 (thorough 5) nodes over all explore clauses incl. interpret-as and recursion limits {none,1,100,101,10^6}, each an initial state whose single transition records the model verdict Valid(ast); the harness builds each as a selector-spec node, keeps the ones go-ipld-prime parses, and compares ValidateMaxRecursionDepth(.,100) with the verdict for all of them (exhaustive within the bound).",
+   note=TB + "; well-formedness delegated to go-ipld-prime ParseSelector; conditions/stop-at/subset clauses not enumerated", technique="TLC enumeration of the bounded input space + per-case comparison with the real validator"),
 }
 NA_REASON = "not built yet in this round (check under construction; see DESIGN.md section 4 for the plan)"
 def main():
